@@ -36,6 +36,9 @@ def cfgs_for(d, p, cfgset, tier):
         out.append({'entry': 'conelp', 'storage': 'dense', 'kkt': None})
         if only_l:
             out.append({'entry': 'lp', 'storage': 'sparse', 'kkt': None})
+            # no options= keyword at all (defaults from solvers.options), immediately after a call of the same entry point
+            # with loose per-call tolerances: the claim is judged at the default tolerances
+            out.append({'entry': 'lp', 'storage': 'dense', 'kkt': None, 'via': 'global', 'prelude': LOOSE})
         return out
     if cfgset == 'loose':
         out.append({'entry': 'conelp', 'storage': 'dense', 'kkt': None, 'opts': LOOSE})
@@ -83,6 +86,11 @@ def cfgs_for(d, p, cfgset, tier):
             for on in ('tight', 'maxit2', 'loose'):
                 out.append({'entry': ent, 'storage': 'dense', 'kkt': None, 'opts': OPTSETS[on], 'optname': on})
         out.append({'entry': 'conelp', 'storage': 'dense', 'kkt': None, 'opts': OPTSETS['tight'], 'optname': 'tight'})
+        # option sets that arrive through solvers.options (no options= keyword), the second one right behind a call with
+        # loose per-call options through the same entry point
+        for ent in ['conelp'] + (['lp'] if only_l else []) + (['socp'] if not d['s'] else []) + (['sdp'] if not d['q'] else []):
+            out.append({'entry': ent, 'storage': 'dense', 'kkt': None, 'via': 'global', 'opts': OPTSETS['tight'], 'optname': 'tight'})
+            out.append({'entry': ent, 'storage': 'sparse', 'kkt': None, 'via': 'global', 'prelude': LOOSE})
         if only_l:
             for st in ('dense', 'sparse'):
                 out.append({'entry': 'lp', 'storage': st, 'kkt': None})
